@@ -215,6 +215,7 @@ func (t *Collection) SetItem(item *Item) (err error) {
 	defer t.freeNodeLoc(nloc)
 	r, err := t.store.union(t, root, nloc, &rnl.reclaimMark)
 	if err != nil {
+		t.unmarkReclaimable(root, &rnl.reclaimMark)
 		return err
 	}
 	rnlNew := t.mkRootNodeLoc(r)
@@ -262,6 +263,7 @@ func (t *Collection) Delete(key []byte) (wasDeleted bool, err error) {
 	t.store.ItemDecRef(t, i)
 	left, middle, right, err := t.store.split(t, root, key, &rnl.reclaimMark)
 	if err != nil {
+		t.unmarkReclaimable(root, &rnl.reclaimMark)
 		return false, err
 	}
 	defer t.freeNodeLoc(left)
@@ -272,6 +274,7 @@ func (t *Collection) Delete(key []byte) (wasDeleted bool, err error) {
 	}
 	r, err := t.store.join(t, left, right, &rnl.reclaimMark)
 	if err != nil {
+		t.unmarkReclaimable(root, &rnl.reclaimMark)
 		return false, err
 	}
 	rnlNew := t.mkRootNodeLoc(r)
